@@ -72,6 +72,19 @@ type c08Scn struct {
 	// BobBCSat: Bob's balance on the Bob-Carol channel in satoshi (0 = 5 BTC like
 	// every other channel end). A small value makes Bob unable to forward A->C.
 	BobBCSat int64 `json:"bob_bc_sat,omitempty"`
+	// MailboxExpiryMs (>0) shortens the delivery timeout of Bob's mailboxes (fixture:
+	// one hour, which lies beyond the fixture's random 30-40 min fee-update timer and the
+	// invoice expiry) so that an Add can expire in the outgoing mailbox while the B-C
+	// connection is re-establishing. Set by reflection on the switch's unexported
+	// mailbox configuration; a space that needs it is skipped if that fails.
+	MailboxExpiryMs int `json:"mailbox_expiry_ms,omitempty"`
+	// SlowReest names a wire (e.g. "C>B") that is frozen, at no cost to the deviation
+	// budget, whenever its connection has just been cut: the re-establishment of that
+	// connection is slow, the link stays registered but does not consume its mailbox.
+	SlowReest string `json:"slow_reest,omitempty"`
+	// FaultSeq, if set, prescribes the kinds of the faults in order (the k-th fault of
+	// an execution must be FaultSeq[k]).
+	FaultSeq []string `json:"fault_seq,omitempty"`
 	// FaultKinds / FreezeWires restrict the fault events / the wires that may be
 	// frozen (empty = all). Used to shard one large space over several workers.
 	FaultKinds  []string `json:"fault_kinds,omitempty"`
@@ -311,7 +324,17 @@ func newC08World(t *testing.T, scn c08Scn, dir string, info func(string)) (w *c0
 	w.chanIDs[1] = lnwire.NewChanIDFromOutPoint(w.chans[2].ChannelPoint())
 
 	ok := w.guard(func() {
-		n := newThreeHopNetwork(w.tb, w.chans[0], w.chans[1], w.chans[2], w.chans[3], testStartingHeight)
+		var opts []serverOption
+		if scn.MailboxExpiryMs > 0 {
+			// the fixture applies server options before it creates links (and with
+			// them the mailboxes)
+			opts = append(opts, func(_, bob, _ *mockServer) {
+				if !c08SetMailboxExpiry(bob.htlcSwitch, time.Duration(scn.MailboxExpiryMs)*time.Millisecond) {
+					w.tb.record("SKIP: cannot set the mailbox expiry on this tree")
+				}
+			})
+		}
+		n := newThreeHopNetwork(w.tb, w.chans[0], w.chans[1], w.chans[2], w.chans[3], testStartingHeight, opts...)
 		w.hn = &n.hopNetwork
 		w.servers = [3]*mockServer{n.aliceServer, n.bobServer, n.carolServer}
 		w.decoders = [3]*mockIteratorDecoder{n.aliceOnionDecoder, n.bobOnionDecoder, n.carolOnionDecoder}
@@ -933,6 +956,9 @@ func (w *c08World) restartBob() error {
 		return fmt.Errorf("new bob server: %v %v", err, w.tb.failures())
 	}
 	w.servers[1] = nb
+	if w.scn.MailboxExpiryMs > 0 {
+		c08SetMailboxExpiry(nb.htlcSwitch, time.Duration(w.scn.MailboxExpiryMs)*time.Millisecond)
+	}
 	w.intercept(1)
 	for _, e := range []int{0, 1, 2, 3} {
 		if err := w.startLink(e); err != nil {
@@ -1049,9 +1075,13 @@ func (w *c08World) Enabled() []string {
 	acts := append([]string{def}, devs...)
 	if canFault {
 		for _, f := range []string{"cut:AB", "cut:BC", "rb"} {
-			if c08In(w.scn.FaultKinds, f) {
-				acts = append(acts, f)
+			if !c08In(w.scn.FaultKinds, f) {
+				continue
 			}
+			if len(w.scn.FaultSeq) > 0 && (w.faultsUsed >= len(w.scn.FaultSeq) || w.scn.FaultSeq[w.faultsUsed] != f) {
+				continue
+			}
+			acts = append(acts, f)
 		}
 	}
 	return acts
@@ -1195,6 +1225,13 @@ func (w *c08World) Do(a string) (err error) {
 		}
 		if w.frozen/2 == pair && w.frozen >= 0 {
 			w.frozen = -1 // the slow connection is gone
+		}
+		if w.scn.SlowReest != "" && w.frozen < 0 {
+			for wi, n := range c08WireName {
+				if n == w.scn.SlowReest && wi/2 == pair {
+					w.frozen = wi // ... and the new one is slow to come up
+				}
+			}
 		}
 		if err := w.cut(pair); err != nil {
 			w.dead = err.Error()
@@ -1571,6 +1608,31 @@ func (w *c08World) Close() {
 	}()
 	<-done
 	_ = os.RemoveAll(w.tb.dir)
+}
+
+// c08SetMailboxExpiry overwrites Switch.mailOrchestrator.cfg.expiry (all unexported) by
+// reflection. It must run before the switch creates mailboxes. Returns false if the
+// structure is not what it was when this harness was written.
+func c08SetMailboxExpiry(s *Switch, d time.Duration) (ok bool) {
+	defer func() {
+		if recover() != nil {
+			ok = false
+		}
+	}()
+	f := reflect.ValueOf(s).Elem().FieldByName("mailOrchestrator")
+	if !f.IsValid() || f.Kind() != reflect.Pointer || f.IsNil() {
+		return false
+	}
+	cfg := f.Elem().FieldByName("cfg")
+	if !cfg.IsValid() || cfg.Kind() != reflect.Pointer || cfg.IsNil() {
+		return false
+	}
+	e := cfg.Elem().FieldByName("expiry")
+	if !e.IsValid() || e.Type() != reflect.TypeOf(time.Duration(0)) {
+		return false
+	}
+	*(*time.Duration)(unsafe.Pointer(e.UnsafeAddr())) = d
+	return true
 }
 
 // c08PoolOf digs the signature pool out of a channel created by the fixture, which
